@@ -1,6 +1,8 @@
 //! pvh — correspondence harness and implementation-side property oracles for phylotree-rs.
 //! usage: pvh run <Cxx> --tier quick|thorough --seed N --driver PATH --out FILE
 //!        pvh replay <script-file> --driver PATH
+mod c01;
+mod c02;
 mod c03;
 mod case;
 mod gen;
@@ -35,6 +37,14 @@ fn main() {
                 "C03" => {
                     rep = Report::new("C03", "edit histories (corpus, exhaustive op/argument sequences on small shapes, random walks); a case is one history, identified by its script; non-trivial = at least one successful structural edit and at least one rejected call");
                     c03::run(&c03::Cfg { tier_thorough: tier == "thorough", seed, driver: driver.clone() }, &mut rep);
+                }
+                "C01" | "C16" => {
+                    rep = Report::new(&prop, if prop == "C01" { "trees (all small shapes and random shapes up to hundreds of nodes) x arena layouts (API pre-order, API breadth-first, with removed slots, parsed) x field mixtures (plain / quoted / non-ASCII names, comments, absent / dyadic / decimal / arbitrary-bit-pattern lengths incl. -0, subnormals, 1e300, infinities); a case is one labelled tree; non-trivial = at least two nodes and at least one name or length" } else { "the same trees as C01, each written in all nine NewickFormat values and as Nexus; a case is one labelled tree; non-trivial as in C01" });
+                    c01::run(&prop, tier == "thorough", seed, &driver, &mut rep);
+                }
+                "C02" => {
+                    rep = Report::new("C02", "strings fed to Tree::from_newick (corpus, every string up to a length bound over the token alphabet ( ) , ; : [ ] \" a 1 space, every short float lexeme, mutated valid Newick, random Unicode); a case is one string; non-trivial = contains at least one structural token");
+                    c02::run(tier == "thorough", seed, &driver, &mut rep);
                 }
                 _ => {
                     eprintln!("unknown property {prop}");
